@@ -49,6 +49,14 @@ def corpus():
         dict(name="reset", wifi=0, mtu=1500, setup=[disc] + probes(3) + [W.qlt(OWN, MAPPER, 3, 0x0E, 0)], request=[W.reset(MAPPER, tos=0)]),
         dict(name="first-frame-query", wifi=0, mtu=1500, setup=[], request=[W.query(OWN, MAPPER, 9), disc]),
         dict(name="daemon-flow", wifi=0, mtu=1500, setup=[], request=[disc, emit3], flow=True),
+        # malformed requests while the platform misbehaves: declared counts the frame (or the receive buffer) cannot hold
+        dict(name="emit-count-beyond-frame", wifi=0, mtu=1500, setup=[disc],
+             request=[W.emit(OWN, MAPPER, 7, [(1, 0, S1, OWN), (0, 0, S1, MAPPER)], count=105),
+                      W.emit(OWN, MAPPER, 8, [(1, 0, S1, OWN)], count=0xFFFF)]),
+        dict(name="discover-count-beyond-frame", wifi=0, mtu=1500, setup=[],
+             request=[W.discover(MAPPER, 0x0101, 0x0202, [S1], tos=0, count=0xFFFF)]),
+        dict(name="qlt-offset-past-end", wifi=0, mtu=1500, setup=[disc],
+             request=[W.qlt(OWN, MAPPER, 3, 0x0E, 0x7FFF), W.qlt(OWN, MAPPER, 4, 0x11, 0x7FFF), W.qlt(OWN, MAPPER, 5, 0x13, 65)]),
     ]
 
 
@@ -56,7 +64,7 @@ CONT = [W.discover(MAPPER, 5, 6, [], tos=0), W.probe(OWN, S1, OWN, S1), W.query(
         W.qlt(OWN, MAPPER, 23, 0x11, 0), W.emit(OWN, MAPPER, 24, [(1, 0, S1, OWN)]), W.discover(BRIDGE, 0, 1, [], tos=1)]
 
 
-def build_scn(sid, c, fault_lines, getter_fail=None):
+def build_scn(sid, c, fault_lines, getter_fail=None, failrc=-1):
     cfg = cfg_for(c["wifi"], c["mtu"])
     s = H.Scenario(sid, meta=dict(base=c["name"], nreq=len(c["request"]), nsetup=len(c["setup"]), flow=bool(c.get("flow")),
                                   getter_fail=getter_fail, mtu=c["mtu"]))
@@ -73,6 +81,7 @@ def build_scn(sid, c, fault_lines, getter_fail=None):
     for ln in fault_lines:
         s.add(ln)
     if getter_fail is not None:
+        s.add("OPT failrc=%d" % failrc)      # any non-zero return value is a failure (the core tests against 0)
         s.add("SET 0 fail=%d" % (getter_fail & 0xFFF))
         s.add("GSET fail=%d" % (getter_fail & 0xF000))
     for fr in c["request"]:
@@ -167,6 +176,14 @@ def make_monitor(refs):
             else:
                 rep.nontrivial((base, meta.get("fault")))
         elif meta.get("kind") == "getter":
+            # a failing getter legitimately changes frame content, but not which frames are sent: answered partially or
+            # not at all means no frame the fault-free responder would not have sent
+            if meta.get("positive_rc"):
+                rep.count("runs:getter-positive-return-code")
+            if ref is not None:
+                a, b = [r[17] for r in sent if r and len(r) >= 18], [p[0] for p in ref["proj"] if p]
+                if not is_subseq(a, b):
+                    bad("more-frames-under-getter-failure", "opcodes sent %s, fault-free %s" % (a, b))
             rep.nontrivial((base, meta.get("fault")))
         # continuation equals a fresh instance's
         n = len(CONT) + 1
@@ -303,21 +320,27 @@ def run(ctx):
     else:
         subsets = list(range(1, 1 << 16))
     for c in corp:
-        if c["mtu"] != 1500 or c["name"] not in ("discover-wired", "discover-wifi", "qlt-icon", "qlt-friendly-name", "qlt-hardware-id", "emit-3", "probes-query"):
+        if c["mtu"] != 1500 or c["name"] not in ("discover-wired", "discover-wifi", "qlt-icon", "qlt-friendly-name", "qlt-hardware-id", "emit-3",
+                                                  "probes-query", "emit-count-beyond-frame", "discover-count-beyond-frame", "qlt-offset-past-end"):
             continue
         sub = subsets if c["name"] in ("discover-wifi",) or ctx.quick else subsets[::37]
         if ctx.quick and c["name"] not in ("discover-wired", "discover-wifi"):
             sub = subsets[:136]
-        for m in sub:
-            s = build_scn("%s-g%04x" % (c["name"], m), c, [], getter_fail=m)
-            s.meta.update(kind="getter", fault="getters=%#06x" % m)
-            scns.append(s)
+        for gi, m in enumerate(sub):
+            rcs = [-1, 1] if gi < len(GETTER_BITS) else [(-1, 1, 2, -7, 0x7fffffff)[gi % 5]]
+            for rc in rcs:
+                s = build_scn("%s-g%04x%s" % (c["name"], m, "p" if rc > 0 else "n"), c, [], getter_fail=m, failrc=rc)
+                s.meta.update(kind="getter", fault="getters=%#06x failing with return value %d" % (m, rc))
+                if rc > 0:
+                    s.meta["positive_rc"] = True
+                scns.append(s)
     run_monitored(ctx, binary, scns, make_monitor(store), tag="fault", env_extra={"ASAN_OPTIONS": "detect_leaks=1"})
     run_monitored(ctx, binary, ctor_scenarios(), ctor_monitor, tag="ctor")
     c = rep.counters
     rep.need("runs:alloc", c.get("runs:alloc", 0), 50)
     rep.need("runs:send", c.get("runs:send", 0), 30)
     rep.need("runs:getter", c.get("runs:getter", 0), 500)
+    rep.need("runs:getter-positive-return-code", c.get("runs:getter-positive-return-code", 0), 100)
     rep.need("runs:ctor", c.get("runs:ctor", 0), 24)
     rep.need("ledger_comparisons", c.get("ledger_comparisons", 0), 500)
     rep.need("continuations_compared", c.get("continuations_compared", 0), 500)
